@@ -59,6 +59,16 @@ def sentences(seed, n_random):
                 out.append(t[:m.start()] + m.group(0).rjust(pad, b"0") + t[m.end():])
             for wrap in (256, 65536, 2 ** 32, 2 ** 64):
                 out.append(t[:m.start()] + str(int(m.group(0)) + wrap).encode() + t[m.end():])
+    # 2c. every punctuation / special byte as the first, middle and last character of either abbreviation, after each
+    # form of offset (a ':' can only start the dst abbreviation when the std offset already has all three fields)
+    for ch in b":./;*@_ !#$%&'()=?[]^`{|}~\\\"\t\x7f\x80\xff":
+        c = bytes([ch])
+        for so in (b"5", b"5:00", b"5:00:00", b"-5:30:15"):
+            for dst in (c + b"EDT", b"ED" + c + b"T", b"EDT" + c, c * 3):
+                out.append(b"EST" + so + dst + b",M3.2.0,M11.1.0")
+                out.append(b"EST" + so + dst)
+        for std in (c + b"EST", b"ES" + c + b"T", b"EST" + c, c * 3):
+            out.append(std + b"5EDT,M3.2.0,M11.1.0")
     # 3. random combinations with an occasional bad component
     for _ in range(n_random):
         c = dict(std=pick(ABBR_OK, ABBR_BAD), so=pick(OFF_OK, OFF_BAD), dst=pick(ABBR_OK, ABBR_BAD),
